@@ -133,7 +133,8 @@ fn(OH, 'identity', self_ty='OpenHypergraph', nth=0, status='P', props=['C05', 'C
    ensures=[('C05.identity', '''r.h.w == w && r.h.x@.len() == 0 && r.h.s.sources.table@.len() == 0 && r.h.t.sources.table@.len() == 0
                 && r.s.table@.len() == w@.len() && r.t.table@.len() == w@.len()
                 && (forall|i: int| 0 <= i < w@.len() ==> r.s.table@[i] == i && r.t.table@[i] == i)'''),
-            ('C05.identity-wf', 'r.wf()')])
+            ('C05.identity-wf', 'r.wf()'),
+            ('C03.identity-pred', 'is_identity_on(r, w@)')])
 fn(OH, 'spider', self_ty='OpenHypergraph', nth=0, status='P', props=['C04', 'C05'],
    requires=['s.wf()', 't.wf()'],
    ensures=[('C04.spider-iff', 'r.is_some() <==> (s.target == w@.len() && t.target == w@.len())'),
@@ -199,6 +200,130 @@ group('impl From<InvalidHypergraph> for InvalidOpenHypergraph')
 fn(OH, 'from', trait='From', self_ty='InvalidOpenHypergraph', status='P', props=['C05'])
 endgroup()
 
+raw(r'''
+// ---------------------------------------------------------------------------------------------
+// C02, "consequently" clause: juxtaposition is associative and unital on the nose (lemmas over the contract of tensor)
+// ---------------------------------------------------------------------------------------------
+/// r is f followed by g (the postcondition of `tensor`, as one predicate)
+pub open spec fn is_tensor<O, A>(r: OpenHypergraph<O, A>, f: OpenHypergraph<O, A>, g: OpenHypergraph<O, A>) -> bool {
+    &&& r.wf()
+    &&& juxtaposed(r.h.s, f.h.s, g.h.s) && juxtaposed(r.h.t, f.h.t, g.h.t)
+    &&& r.h.w@ == f.h.w@ + g.h.w@ && r.h.x@ == f.h.x@ + g.h.x@
+    &&& r.s.table@.len() == f.s.table@.len() + g.s.table@.len()
+    &&& (forall|i: int| 0 <= i < f.s.table@.len() ==> r.s.table@[i] == f.s.table@[i])
+    &&& (forall|i: int| f.s.table@.len() <= i < f.s.table@.len() + g.s.table@.len() ==> r.s.table@[i] == f.h.w@.len() + g.s.table@[i - f.s.table@.len()])
+    &&& r.t.table@.len() == f.t.table@.len() + g.t.table@.len()
+    &&& (forall|i: int| 0 <= i < f.t.table@.len() ==> r.t.table@[i] == f.t.table@[i])
+    &&& (forall|i: int| f.t.table@.len() <= i < f.t.table@.len() + g.t.table@.len() ==> r.t.table@[i] == f.h.w@.len() + g.t.table@[i - f.t.table@.len()])
+    &&& r.s.target == f.h.w@.len() + g.h.w@.len() && r.t.target == f.h.w@.len() + g.h.w@.len()
+}
+
+/// equal data: every array and every codomain agree
+pub open spec fn same_data<O, A>(a: OpenHypergraph<O, A>, b: OpenHypergraph<O, A>) -> bool {
+    &&& a.s.table@ == b.s.table@ && a.s.target == b.s.target && a.t.table@ == b.t.table@ && a.t.target == b.t.target
+    &&& a.h.w@ == b.h.w@ && a.h.x@ == b.h.x@
+    &&& a.h.s.sources.table@ == b.h.s.sources.table@ && a.h.s.sources.target == b.h.s.sources.target
+    &&& a.h.s.values.table@ == b.h.s.values.table@ && a.h.s.values.target == b.h.s.values.target
+    &&& a.h.t.sources.table@ == b.h.t.sources.table@ && a.h.t.sources.target == b.h.t.sources.target
+    &&& a.h.t.values.table@ == b.h.t.values.table@ && a.h.t.values.target == b.h.t.values.target
+}
+
+pub proof fn lemma_juxtaposed_assoc(r1: IndexedCoproduct<FiniteFunction>, ab: IndexedCoproduct<FiniteFunction>, r2: IndexedCoproduct<FiniteFunction>, bc: IndexedCoproduct<FiniteFunction>,
+                                    a: IndexedCoproduct<FiniteFunction>, b: IndexedCoproduct<FiniteFunction>, c: IndexedCoproduct<FiniteFunction>)
+    requires juxtaposed(ab, a, b), juxtaposed(r1, ab, c), juxtaposed(bc, b, c), juxtaposed(r2, a, bc)
+    ensures r1.sources.table@ =~= r2.sources.table@, r1.values.table@ =~= r2.values.table@, r1.values.target == r2.values.target
+{
+    let la = a.values.table@.len() as int; let lb = b.values.table@.len() as int;
+    assert forall|i: int| 0 <= i < r1.values.table@.len() implies r1.values.table@[i] == r2.values.table@[i] by {
+        if i < la { assert(ab.values.table@[i] == a.values.table@[i]); }
+        else if i < la + lb { assert(ab.values.table@[i] == a.values.target + b.values.table@[i - la]); assert(bc.values.table@[i - la] == b.values.table@[i - la]); }
+        else { assert(bc.values.table@[i - la] == b.values.target + c.values.table@[i - la - lb]); }
+    }
+}
+
+/// (f | g) | h and f | (g | h) are the same data
+pub proof fn lemma_tensor_assoc<O, A>(r1: OpenHypergraph<O, A>, fg: OpenHypergraph<O, A>, r2: OpenHypergraph<O, A>, gh: OpenHypergraph<O, A>,
+                                      f: OpenHypergraph<O, A>, g: OpenHypergraph<O, A>, h: OpenHypergraph<O, A>)
+    requires is_tensor(fg, f, g), is_tensor(r1, fg, h), is_tensor(gh, g, h), is_tensor(r2, f, gh)
+    ensures same_data(r1, r2)
+{
+    lemma_juxtaposed_assoc(r1.h.s, fg.h.s, r2.h.s, gh.h.s, f.h.s, g.h.s, h.h.s);
+    lemma_juxtaposed_assoc(r1.h.t, fg.h.t, r2.h.t, gh.h.t, f.h.t, g.h.t, h.h.t);
+    assert(r1.h.w@ =~= r2.h.w@); assert(r1.h.x@ =~= r2.h.x@);
+    let a = f.s.table@.len() as int; let b = g.s.table@.len() as int;
+    assert(r1.s.table@ =~= r2.s.table@) by {
+        assert forall|i: int| 0 <= i < r1.s.table@.len() implies r1.s.table@[i] == r2.s.table@[i] by {
+            if i < a { assert(fg.s.table@[i] == f.s.table@[i]); }
+            else if i < a + b { assert(fg.s.table@[i] == f.h.w@.len() + g.s.table@[i - a]); assert(gh.s.table@[i - a] == g.s.table@[i - a]); }
+            else { assert(gh.s.table@[i - a] == g.h.w@.len() + h.s.table@[i - a - b]); }
+        }
+    }
+    let a2 = f.t.table@.len() as int; let b2 = g.t.table@.len() as int;
+    assert(r1.t.table@ =~= r2.t.table@) by {
+        assert forall|i: int| 0 <= i < r1.t.table@.len() implies r1.t.table@[i] == r2.t.table@[i] by {
+            if i < a2 { assert(fg.t.table@[i] == f.t.table@[i]); }
+            else if i < a2 + b2 { assert(fg.t.table@[i] == f.h.w@.len() + g.t.table@[i - a2]); assert(gh.t.table@[i - a2] == g.t.table@[i - a2]); }
+            else { assert(gh.t.table@[i - a2] == g.h.w@.len() + h.t.table@[i - a2 - b2]); }
+        }
+    }
+}
+
+/// the empty diagram is a two-sided unit: f | e and e | f are the same data as f
+pub proof fn lemma_tensor_unit<O, A>(r: OpenHypergraph<O, A>, l: OpenHypergraph<O, A>, f: OpenHypergraph<O, A>, e: OpenHypergraph<O, A>)
+    requires f.wf(), e.wf(), e.h.w@.len() == 0, e.h.x@.len() == 0, e.s.table@.len() == 0, e.t.table@.len() == 0,
+        is_tensor(r, f, e), is_tensor(l, e, f)
+    ensures same_data(r, f), same_data(l, f)
+{
+    assert(e.h.s.values.table@.len() == 0 && e.h.t.values.table@.len() == 0) by {
+        lemma_psum_const(e.h.s.sources.table@, 0usize, 0); lemma_psum_const(e.h.t.sources.table@, 0usize, 0);
+    }
+    assert(r.h.s.values.table@ =~= f.h.s.values.table@ && r.h.t.values.table@ =~= f.h.t.values.table@);
+    assert(l.h.s.values.table@ =~= f.h.s.values.table@ && l.h.t.values.table@ =~= f.h.t.values.table@);
+    assert(r.h.s.sources.table@ =~= f.h.s.sources.table@ && r.h.t.sources.table@ =~= f.h.t.sources.table@);
+    assert(l.h.s.sources.table@ =~= f.h.s.sources.table@ && l.h.t.sources.table@ =~= f.h.t.sources.table@);
+    assert(r.s.table@ =~= f.s.table@ && r.t.table@ =~= f.t.table@ && l.s.table@ =~= f.s.table@ && l.t.table@ =~= f.t.table@);
+    assert(r.h.w@ =~= f.h.w@ && l.h.w@ =~= f.h.w@ && r.h.x@ =~= f.h.x@ && l.h.x@ =~= f.h.x@);
+}
+''')
+
+raw(r'''
+// ---------------------------------------------------------------------------------------------
+// C04: dagger is an involution and distributes over tensor, on the nose (lemmas over the contracts of dagger and tensor)
+// ---------------------------------------------------------------------------------------------
+/// r is f with the two interfaces swapped (the postcondition of `dagger`, as one predicate)
+pub open spec fn is_dagger<O, A>(r: OpenHypergraph<O, A>, f: OpenHypergraph<O, A>) -> bool {
+    &&& r.s.table@ == f.t.table@ && r.s.target == f.t.target && r.t.table@ == f.s.table@ && r.t.target == f.s.target
+    &&& r.h.s.sources.table@ == f.h.s.sources.table@ && r.h.s.sources.target == f.h.s.sources.target
+    &&& r.h.s.values.table@ == f.h.s.values.table@ && r.h.s.values.target == f.h.s.values.target
+    &&& r.h.t.sources.table@ == f.h.t.sources.table@ && r.h.t.sources.target == f.h.t.sources.target
+    &&& r.h.t.values.table@ == f.h.t.values.table@ && r.h.t.values.target == f.h.t.values.target
+    &&& r.h.w@ == f.h.w@ && r.h.x@ == f.h.x@
+}
+
+pub proof fn lemma_dagger_involution<O, A>(r: OpenHypergraph<O, A>, d: OpenHypergraph<O, A>, f: OpenHypergraph<O, A>)
+    requires is_dagger(d, f), is_dagger(r, d)
+    ensures same_data(r, f)
+{
+}
+
+/// (f | g)† and f† | g† are the same data
+pub proof fn lemma_dagger_tensor<O, A>(r1: OpenHypergraph<O, A>, fg: OpenHypergraph<O, A>, r2: OpenHypergraph<O, A>, df: OpenHypergraph<O, A>, dg: OpenHypergraph<O, A>,
+                                       f: OpenHypergraph<O, A>, g: OpenHypergraph<O, A>)
+    requires is_tensor(fg, f, g), is_dagger(r1, fg), is_dagger(df, f), is_dagger(dg, g), is_tensor(r2, df, dg)
+    ensures same_data(r1, r2)
+{
+    assert(r1.s.table@ =~= r2.s.table@);
+    assert(r1.t.table@ =~= r2.t.table@);
+    assert(r1.h.s.values.table@ =~= r2.h.s.values.table@);
+    assert(r1.h.t.values.table@ =~= r2.h.t.values.table@);
+    assert(r1.h.s.sources.table@ =~= r2.h.s.sources.table@);
+    assert(r1.h.t.sources.table@ =~= r2.h.t.sources.table@);
+    assert(r1.h.s.sources.target == r2.h.s.sources.target && r1.h.t.sources.target == r2.h.t.sources.target) by {
+        assert(r2.wf() && fg.wf());
+    }
+}
+''')
+
 group('impl<O: Clone + PartialEq, A: Clone> OpenHypergraph<O, A>')
 # impl Monoidal
 fn(OH, 'unit', trait='Monoidal', self_ty='OpenHypergraph', status='P', props=['C02'], rules={'subst': {'Self::Object': 'SemifiniteFunction<O>'}},
@@ -216,7 +341,8 @@ fn(OH, 'tensor', trait='Monoidal', self_ty='OpenHypergraph', status='P', props=[
                 && (forall|i: int| self.t.table@.len() <= i < self.t.table@.len() + other.t.table@.len() ==> r.t.table@[i] == self.h.w@.len() + other.t.table@[i - self.t.table@.len()])
                 && r.s.target == self.h.w@.len() + other.h.w@.len() && r.t.target == self.h.w@.len() + other.h.w@.len()'''),
             ('C05.tensor-wf', 'r.wf()'),
-            ('C05.tensor-type', 'lawful_clone::<O>() ==> r.src_type() =~= self.src_type() + other.src_type() && r.tgt_type() =~= self.tgt_type() + other.tgt_type()')])
+            ('C05.tensor-type', 'lawful_clone::<O>() ==> r.src_type() =~= self.src_type() + other.src_type() && r.tgt_type() =~= self.tgt_type() + other.tgt_type()'),
+            ('C02.tensor', 'lawful_clone::<O>() && lawful_clone::<A>() ==> is_tensor(r, *self, *other)')])
 # impl SymmetricMonoidal
 fn(OH, 'twist', trait='SymmetricMonoidal', self_ty='OpenHypergraph', status='P', props=['C04', 'C05', 'C03'],
    rules={'ops': ['add'], 'subst': {'Self::Object': 'SemifiniteFunction<O>'}},
@@ -227,7 +353,8 @@ fn(OH, 'twist', trait='SymmetricMonoidal', self_ty='OpenHypergraph', status='P',
                 && (forall|i: int| 0 <= i < a@.len() ==> r.s.table@[i] == b@.len() + i)
                 && (forall|i: int| a@.len() <= i < a@.len() + b@.len() ==> r.s.table@[i] == i - a@.len())
                 && (forall|i: int| 0 <= i < a@.len() + b@.len() ==> r.t.table@[i] == i)'''),
-            ('C05.twist-wf', 'r.wf()')])
+            ('C05.twist-wf', 'r.wf()'),
+            ('C03.twist-pred', 'lawful_clone::<O>() ==> is_twist(r, a@, b@)')])
 # impl Spider
 fn(OH, 'dagger', trait='Spider', self_ty='OpenHypergraph', status='P', props=['C04', 'C05'],
    requires=['self.wf()'],
@@ -238,6 +365,7 @@ fn(OH, 'dagger', trait='Spider', self_ty='OpenHypergraph', status='P', props=['C
                 && r.h.t.values.table@ == self.h.t.values.table@ && r.h.t.values.target == self.h.t.values.target
                 && r.h.w@.len() == self.h.w@.len() && r.h.x@.len() == self.h.x@.len()
                 && (lawful_clone::<O>() ==> r.h.w@ == self.h.w@) && (lawful_clone::<A>() ==> r.h.x@ == self.h.x@)'''),
+            ('C04.dagger', 'lawful_clone::<O>() && lawful_clone::<A>() ==> is_dagger(r, *self)'),
             ('C05.dagger-wf', 'r.wf()')])
 fn(OH, 'spider', trait='Spider', self_ty='OpenHypergraph', status='P', props=['C04', 'C05'], rename='spider_trait',
    rules={'subst': {'Self::Object': 'SemifiniteFunction<O>'}},
